@@ -1,6 +1,6 @@
 """Reusable analyses over (inlined) CFGs."""
 from .core import (AnalysisBroken, canon, strip, strip_load, walk, norm_cond, last_member,
-                   forward, is_int, is_null, lvalue_steps, evloc, root_var)
+                   forward, is_int, is_null, lvalue_steps, lvalue_root, evloc, root_var)
 
 # --------------------------------------------------------------------------
 # abstract scalar values: ('c', n) | 'nz' | '?'
@@ -226,6 +226,11 @@ def delta_analysis(fn, counters, discr=(), start_event=None, stop=None, maxstate
         if ev == 'store':
             steps = lvalue_steps(e['lhs'])
             key = steps[0] if steps else None
+            if not steps:
+                r_ = lvalue_root(e['lhs'])
+                if r_ is not None and r_.get('vk') in ('global', 'staticlocal'):
+                    key = ('global', r_['name'])
+                    steps = [key]
             if key in cidx and len(steps) == 1:
                 i = cidx[key]
                 op = e['op']
@@ -595,7 +600,14 @@ def holding(fn, user_call_kills=True, extra_kill=None):
                 lm = last_member(e['lhs'])
                 if lm:
                     kills.add(lm)
-            S2 = frozenset(a for a in S if not (a[3] & kills))
+            rc_ = canon(e['rhs']) if 'rhs' in e and e['op'] == '=' else None
+            # a store of the very value an atom speaks about (P->f = Q->f) leaves
+            # the atom about Q->f true whether or not P aliases Q
+            S2 = frozenset(a for a in S if not (a[3] & kills) or (rc_ is not None and a[1] == rc_ and a[2].lstrip('-').isdigit()))
+            if e['op'] == '=' and 'rhs' in e:
+                v0 = strip(e['rhs'])
+                if isinstance(v0, dict) and v0.get('k') == 'incdec' and v0['op'] == '++' and not v0['prefix']:
+                    S2 = S2 | {('from++', canon(e['lhs']), canon(v0['e']), frozenset(_mem_keys(e['lhs'])))}
             # assignment `x = const` / copies generate equality atoms for variables
             if l.get('k') == 'var' and e['op'] == '=':
                 v = strip(e['rhs'])
@@ -812,3 +824,138 @@ def exits_of(fn):
 
 def atoms_reading(S, key):
     return [a for a in (S or ()) if key in a[3]]
+
+
+# --------------------------------------------------------------------------
+# stale-after-callback
+# --------------------------------------------------------------------------
+
+# records whose objects a user callback may unregister and free
+USER_OBJECT_RECORDS = {'iv_fd_', 'iv_fd', 'iv_task_', 'iv_task', 'iv_timer_', 'iv_timer', 'iv_event', 'iv_event_raw',
+                       'iv_signal', 'iv_wait_interest', 'iv_inotify', 'iv_inotify_watch', 'iv_work_item',
+                       'iv_popen_request', 'iv_work_pool', 'iv_fd_pump'}
+
+
+def _top_deref(x):
+    x = strip(x) if isinstance(x, dict) and x.get('k') in ('cast', 'stmtexpr') else x
+    while isinstance(x, dict):
+        k = x.get('k')
+        if k == 'member':
+            if x['arrow']:
+                b = strip(x['base'])
+                return b if isinstance(b, dict) and b.get('k') == 'var' else None
+            x = x['base']
+        elif k == 'deref':
+            b = strip(x['e'])
+            return b if isinstance(b, dict) and b.get('k') == 'var' else None
+        elif k == 'index':
+            b = strip(x['base'])
+            if isinstance(b, dict) and b.get('k') == 'var' and 'bound' not in x:
+                return b
+            x = x['base']
+        elif k in ('cast', 'addr'):
+            x = x['e']
+        else:
+            return None
+    return None
+
+
+def derefs_by_event(e):
+    """[(var node, canon of access)] dereferences performed by the event itself."""
+    cands = []
+    if e['ev'] == 'load':
+        cands.append(e['e'])
+    elif e['ev'] == 'store':
+        cands.append(e['lhs'])
+    elif e['ev'] in ('call', 'enter'):
+        for a in e.get('args', []):
+            a2 = strip(a)
+            if isinstance(a2, dict) and a2.get('k') == 'addr':
+                cands.append(a2['e'])
+        if e['ev'] == 'call' and 'fnexpr' in e:
+            cands.append(strip(e['fnexpr']))
+    out = []
+    for x in cands:
+        v = _top_deref(x)
+        if v is not None:
+            out.append((v, canon(x)))
+    return out
+
+
+def stale_after_callback(fn, is_callback, keep_kinds=()):
+    """Forward may-analysis.  After a callback site every pointer variable to a
+    user-owned object kind is stale until it is reassigned or the path crosses
+    the alive edge of a liveness marker tied to that variable:
+       marker M : a location for which the function executed `M = v` (or
+                  published `&v`); the edge `M != NULL` / `v != NULL` revives v.
+    Returns [(event, var, access, callback event)]."""
+    # pointer variables of interest
+    objvars = {}
+    for e in fn.events():
+        for x in walk(e):
+            if x.get('k') == 'var' and x.get('vk') in ('local', 'param') and x.get('ptr') \
+                    and x.get('record') in USER_OBJECT_RECORDS:
+                objvars[x['name']] = x['record']
+        if e['ev'] == 'decl' and e.get('ptr') and e.get('record') in USER_OBJECT_RECORDS:
+            objvars[e['name']] = e['record']
+    for p in fn.params:
+        if p.get('ptr') and p.get('record') in USER_OBJECT_RECORDS:
+            objvars[p['name']] = p['record']
+    # markers: M = v  /  X = &v
+    markers = {}      # canon(M) -> var ; var itself when its address was published
+    for e in fn.events():
+        if e['ev'] == 'store' and e.get('op') == '=' and 'rhs' in e:
+            r = strip(e['rhs'])
+            l = strip(e['lhs'])
+            if isinstance(r, dict) and r.get('k') == 'var' and r['name'] in objvars and l.get('k') == 'member':
+                markers[canon(e['lhs'])] = r['name']
+            if isinstance(r, dict) and r.get('k') == 'addr':
+                v = strip(r['e'])
+                if isinstance(v, dict) and v.get('k') == 'var' and v['name'] in objvars:
+                    markers[v['name']] = v['name']
+
+    def transfer(e, S):
+        if e['ev'] == 'store':
+            l = strip(e['lhs'])
+            if l.get('k') == 'var' and any(x[0] == l['name'] for x in S):
+                S = frozenset(x for x in S if x[0] != l['name'])
+        elif e['ev'] == 'decl':
+            if any(x[0] == e['name'] for x in S):
+                S = frozenset(x for x in S if x[0] != e['name'])
+        elif e['ev'] == 'call':
+            cb = is_callback(e)
+            if cb:
+                add = set()
+                for v, rec in objvars.items():
+                    if rec in keep_kinds or (cb == 'work' and rec == 'iv_work_item'):
+                        continue
+                    add.add((v, e.get('loc')))
+                S = S | frozenset(add)
+        return S
+
+    def edge(blk, si, S):
+        if not S or not blk.term or blk.term.get('cond') is None or len(blk.succ) != 2:
+            return S
+        if blk.term.get('cls') in ('SwitchStmt', 'MethodDispatch'):
+            return S
+        for (op, lc, rc, l, r) in norm_cond(blk.term['cond'], si == 0):
+            if op == '!=' and rc == '0' and lc in markers:
+                v = markers[lc]
+                S = frozenset(x for x in S if x[0] != v)
+            elif op == '==' and lc in markers and rc == markers[lc]:
+                v = markers[lc]
+                S = frozenset(x for x in S if x[0] != v)
+        return S
+
+    _, ev_in = forward(fn, frozenset(), transfer, lambda a, b: a | b, edge=edge)
+    reports = []
+    for b, blk in fn.blocks.items():
+        for i, e in enumerate(blk.events):
+            S = ev_in.get((b, i))
+            if not S:
+                continue
+            names = {x[0]: x[1] for x in S}
+            for (v, acc) in derefs_by_event(e):
+                if v['name'] in names:
+                    reports.append((e, v['name'], acc, names[v['name']]))
+    return reports, objvars, markers
